@@ -3,6 +3,7 @@ package rules
 import (
 	"fmt"
 	"go/constant"
+	"go/token"
 	"go/types"
 	"sort"
 	"strings"
@@ -124,6 +125,11 @@ type cacheAnchors struct {
 	del     *ssa.Function // helper with the builtin delete on evs
 	keyFn   *ssa.Function // key function used by Add
 	insCall *ssa.Call     // call of ins in Add
+	// entry / entryCall: the exported Add and its call that leads to the insertion. They
+	// differ from add / insCall when Add is a thin wrapper (`if ephemeral { return true };
+	// return c.addLocked(key, event)`): then add is the wrapped body.
+	entry     *ssa.Function
+	entryCall *ssa.Call
 }
 
 func mapUpdatesOn(fn *ssa.Function, suffix string) []*ssa.MapUpdate {
@@ -179,9 +185,16 @@ func resolveCache(c *core.Ctx) *cacheAnchors {
 	if a.ins == nil || a.del == nil {
 		return nil
 	}
+	a.entry = a.add
 	if a.ins == a.add {
 		// insertion inlined into Add: key is the map index
 		return a
+	}
+	if len(callsTo(a.add, a.ins)) == 0 {
+		// Add as a thin wrapper around the body that inserts
+		if body, call := wrappedBody(c, a.add, a.ins); body != nil {
+			a.add, a.entryCall = body, call
+		}
 	}
 	for _, call := range callsTo(a.add, a.ins) {
 		a.insCall = call
@@ -193,10 +206,104 @@ func resolveCache(c *core.Ctx) *cacheAnchors {
 			}
 		}
 	}
+	if a.entryCall == nil {
+		a.entryCall = a.insCall
+	} else if a.keyFn == nil && a.insCall != nil {
+		// the key is computed by the wrapper and handed to the body as a parameter
+		for _, arg := range a.insCall.Call.Args[1:] {
+			if p, isP := arg.(*ssa.Parameter); isP {
+				for i, q := range a.add.Params {
+					if q == p && i < len(a.entryCall.Call.Args) {
+						if cc := an.CallOf(a.entryCall.Call.Args[i]); cc != nil {
+							if k := an.StaticCallee(&cc.Call); k != nil && c.P.InModule(k) {
+								a.keyFn = k
+							}
+						}
+					}
+				}
+			}
+		}
+	}
 	if a.insCall == nil || a.keyFn == nil {
 		return nil
 	}
 	return a
+}
+
+// evParam: the access path of fn's *Event parameter (the event being added).
+func evParamOf(fn *ssa.Function) string {
+	for _, p := range fn.Params[1:] {
+		if typeNameOf(p.Type()) == "Event" {
+			return "p:" + p.Name()
+		}
+	}
+	if len(fn.Params) > 1 {
+		return "p:" + fn.Params[1].Name()
+	}
+	return ""
+}
+
+// inEntryTerms: an access path of the body whose root is a parameter the wrapper computes
+// (`eventKey`) is rewritten to what the wrapper passes for it.
+func (a *cacheAnchors) inEntryTerms(path string) string {
+	if a.entry == a.add || a.entryCall == nil {
+		return path
+	}
+	for i, q := range a.add.Params {
+		pp := "p:" + q.Name()
+		if i < len(a.entryCall.Call.Args) && (path == pp || strings.HasPrefix(path, pp+".") || strings.HasPrefix(path, pp+"[")) {
+			arg := a.entryCall.Call.Args[i]
+			if _, isParam := arg.(*ssa.Parameter); isParam {
+				return path // handed through unchanged
+			}
+			return an.PathOf(arg) + strings.TrimPrefix(path, pp)
+		}
+	}
+	return path
+}
+
+// wrappedBody: entry is `[if ephemeral { return true }] return recv.body(…)`: one call of a
+// private method that calls ins, whose result is what entry returns; every other return of
+// entry is the constant true behind the ephemeral test. Anything else is not a wrapper.
+func wrappedBody(c *core.Ctx, entry, ins *ssa.Function) (*ssa.Function, *ssa.Call) {
+	var body *ssa.Function
+	var call *ssa.Call
+	n := 0
+	for _, ci := range calls(entry) {
+		cc, ok := ci.(*ssa.Call)
+		if !ok {
+			continue
+		}
+		g := an.StaticCallee(&cc.Call)
+		if g == nil || !c.P.InModule(g) || recvTypeName(g) != "EventCache" || len(callsTo(g, ins)) == 0 {
+			continue
+		}
+		body, call = g, cc
+		n++
+	}
+	if n != 1 || an.InLoop(call.Block()) {
+		return nil, nil
+	}
+	subj := eventTypeSubject(entry)
+	for _, rb := range an.ReturnBlocks(entry) {
+		rv := an.ReturnValues(an.LastInstr(rb).(*ssa.Return))[0]
+		if an.Unwrap(rv) == ssa.Value(call) || blockLocal(rv) == ssa.Value(call) {
+			continue
+		}
+		if !isConstBool(rv, true) || subj == "" {
+			return nil, nil
+		}
+		eph := false
+		for _, g := range an.Guards(entry, rb) {
+			if b, isB := g.V.(*ssa.BinOp); isB && (b.Op == token.EQL) == g.True && an.PathOf(b.X) == subj {
+				eph = true // which class it is compared with is KEY-CLASS's business
+			}
+		}
+		if !eph {
+			return nil, nil
+		}
+	}
+	return body, call
 }
 
 // eventTypeSubject finds the access path of the EventType() call on the
@@ -252,13 +359,13 @@ func runKeyClass(c *core.Ctx) {
 		props := []string{"C04", "C05"}
 		// which classes reach the store?
 		stored := map[string]bool{}
-		subjAdd := eventTypeSubject(a.add)
+		subjAdd := eventTypeSubject(a.entry)
 		for _, n := range classNames {
 			stored[n] = true
 		}
 		if subjAdd != "" {
 			fr := an.ConstFrame(subjAdd)
-			s, n, ok := fr.ReachSet(a.add, a.insCall.Block(), nil, nil)
+			s, n, ok := fr.ReachSet(a.entry, a.entryCall.Block(), nil, nil)
 			c.CountPaths(n)
 			if ok {
 				for _, cn := range classNames {
@@ -266,7 +373,7 @@ func runKeyClass(c *core.Ctx) {
 				}
 			}
 		}
-		c.Check(!stored["Ephemeral"], []string{"C04"}, fname(c, a.add), "class:Ephemeral/stored", P.Pos(a.insCall.Pos()),
+		c.Check(!stored["Ephemeral"], []string{"C04"}, fname(c, a.entry), "class:Ephemeral/stored", P.Pos(a.insCall.Pos()),
 			"ephemeral events never reach the insertion", "ephemeral events reach the insertion helper and are retained and served (Add(kind 20001) then Find([{}]) returns it)")
 		checkKeyFunc(c, a.keyFn, 0, -1, props, stored, cls, classNames)
 	}
@@ -428,6 +535,7 @@ func runNewestWins(c *core.Ctx) {
 	delOccs := occCallsTo(ins, a.del, a.stop)
 	okRem := true
 	cnt := 0
+	seenArgs := map[string]bool{}
 	for _, p := range paths {
 		if !present(p) || !an.Feasible(p) {
 			continue
@@ -435,7 +543,14 @@ func runNewestWins(c *core.Ctx) {
 		cnt++
 		found := false
 		for _, o := range delOccs {
-			if p.Contains(o.Block()) && strings.Contains(occArg(o, 1), "EventKey="+keyPath) {
+			if !p.Contains(o.Block()) {
+				continue
+			}
+			arg := occArg(o, 1)
+			seenArgs[clip(arg, 160)] = true
+			// removed under the key it is stored under: the insertion key itself, or the
+			// key function applied to the retained version found under that key
+			if strings.Contains(arg, "EventKey="+keyPath) || (a.keyFn != nil && strings.Contains(arg, "EventKey=call:"+a.keyFn.String()+"(recv,"+oldPath+")")) {
 				found = true
 			}
 		}
@@ -443,9 +558,14 @@ func runNewestWins(c *core.Ctx) {
 			okRem = false
 		}
 	}
+	var argList []string
+	for k := range seenArgs {
+		argList = append(argList, k)
+	}
+	sort.Strings(argList)
 	c.Check(okRem && cnt > 0, nil, fname(c, ins), "displace/remove-old", P.Pos(mu.Pos()),
 		fmt.Sprintf("on all %d displacing paths the retained version is removed (map, tree, index) under the same key before the store", cnt),
-		"a displacing path stores the new version without removing the old one from the tree/index")
+		fmt.Sprintf("a displacing path stores the new version without removing the old one from the tree/index (removals seen: %v)", argList))
 }
 
 // ---------------------------------------------------------------- CAP-GUARD
